@@ -11,6 +11,120 @@ sys.path.insert(0, HERE)
 
 # id -> (technique, level text, level note, design ref)
 CLAIMS = {
+    "C14": (
+        "composition of the identifier-provenance analysis (C34), the field-completeness / None-in-required-field obligations (C10), the OuterVar closure rule (C07), the Lambda-annotation rule (C05) and shape rules on hy2py_worker and the keyword-mincing unparse wrapper",
+        "Decides necessary conditions for ast.unparse to succeed and re-parse: hy2py prints exactly the module hy_compile returned; every identifier written into the AST is mangled, reserved or copied; every field unparse reads is supplied and required fields are never None; no repo-defined node class survives; annotated parameters are never put inside a Lambda; the mincing wrapper works on a copy and leaves constants alone. Behavioural equality of source and AST is not decided.",
+        "Known pre-existing deviation outside these rules: operator precedence of negative literals in `**` is ast.unparse's own behaviour.",
+        "4/C14",
+    ),
+    "C15": (
+        "compile-time/run-time mirror rule in compile_require (both calls built from the same single definitions), run-time target rule in macros.require, predicate and structure rules in the importer",
+        "Decides that the run-time hy.macros.require / require-reader calls written into the bytecode name the same module, assignments and prefix as the compile-time calls that guard them, that require's submodule fallback keeps the resolved target when called from bytecode, and that a file is compiled as Hy exactly when its (case-sensitive) extension is not another Python source suffix, always finishing through Python's source_to_code. Equality of module values across load paths is not decided.",
+        "",
+        "4/C15",
+    ),
+    "C16": (
+        "call-count / must-precede rule for compiler.eval, per-root result expression, exception-handler shape, compile-once rule for sub-forms (a with manager is handed on as a Result)",
+        "Decides that the staging forms evaluate `(do body)` exactly once at compile time before returning, that eval-when-compile emits nothing, eval-and-compile emits the body once, do-mac compiles the promoted value whatever its truthiness, that evaluation errors are wrapped except internal ones, and that no compile function compiles one sub-form twice on a path (which would run staging forms twice). Effect counts over real compile/run/cached histories are not simulated.",
+        "",
+        "4/C16",
+    ),
+    "C17": (
+        "position-source classification at every asty construction, position-attribute table, synthesized-form rule (.replace before compile), reader position ownership and capture order",
+        "Decides that located nodes take their position from a model or node of the current form (possibly-empty Results as position sources are listed), that Asty maps the four position attributes correctly, that stored names and the implicit import are located, that every form the compiler synthesises gets the user's position before it is compiled, and the reader-side ownership and ordering of position state. The line a concrete traceback shows is not simulated.",
+        "",
+        "4/C17",
+    ),
+    "C18": (
+        "exception-escape analysis: handler shape of try_parse_one_form, lexical containment of all dispatch sites, raise-type check over the call-graph region reachable outside the try, class hierarchy",
+        "Decides that every call into handler or reader-macro code is inside the one try that re-raises LexException and converts every other Exception, that the ten functions that run outside it only raise LexException subclasses and only call character primitives, and that PrematureEndOfInput < LexException < HySyntaxError < SyntaxError. Termination and implicit exceptions of the underlying stream are not decided.",
+        "",
+        "4/C18",
+    ),
+    "C19": (
+        "EOF-sentinel discipline: classification of every getc()/peekc() use (truthiness test raising PrematureEndOfInput / dominated / optional look-ahead / structurally post-dominated by a raising read), converse guard rule, eof_ok caller table, handler order, REPL routing",
+        "Decides, for every cut point at once, that no read of the end-of-input sentinel can lead to an error other than PrematureEndOfInput, that PrematureEndOfInput is only raised on an observed end of input, that only the four constructs that may end with the input read with eof_ok=True, that try_parse_one_form passes PrematureEndOfInput through, that the REPL turns it into a continuation, and that reader state is reset per source.",
+        "Known finding recorded: `#` followed by whitespace is reported as premature end of input (pinned by an existing test). Cuts inside a dotted identifier (`a.`) are a LexException by design of as_identifier and outside these rules.",
+        "4/C19",
+    ),
+    "C20": (
+        "regex-AST inspection of the whitespace class, None-propagation rule through the three consumers of try_parse_one_form, three-way sugar table agreement (reader decorators / hy.repr inverse table / compiler macro names)",
+        "Decides that the whitespace class is exactly the six ASCII characters, that identifiers end at whitespace or NON_IDENT characters (`;` included), that comments end only at a newline, that `;` and `#_` handlers return None and every consumer skips None, that the sugar heads agree three ways (including the argument swap of #^), and that top-level reading yields forms one by one until the end of input. Equality of model lists on concrete texts is not decided.",
+        "",
+        "4/C20",
+    ),
+    "C21": (
+        "ownership search for the position state and the underlying stream, shape of the getc step, capture-order rule in try_parse_one_form, no-shared-model rule",
+        "Thin: decides who may write the position (getc, _set_source), who may read the stream, that hy_reader.py consumes only through getc, the shape of the per-character step (line advances exactly at \\n), that start/end are captured around the handler and only unset positions are filled, and that no module-level model object is handed out twice. The arithmetic relation between regions and text is value-level and not decided.",
+        "",
+        "4/C21",
+    ),
+    "C23": (
+        "table comparison of the accepted escape characters against Python's language-reference table, prefix predicate shape, order rule for newline normalisation, raw-handling rules",
+        "Decides that the accepted escape characters equal Python's (by prefix kind), the prefix predicate, that a backslash toggles the escaping state for every prefix, that CR/CRLF normalisation is unconditional and precedes encoding and decoding, that decoding uses Python's own codecs only without `r`, and that bracket strings are raw, drop one leading newline and record their delimiter. Decoded values and the closing-delimiter matcher are value-level and not decided.",
+        "",
+        "4/C23",
+    ),
+    "C24": (
+        "table and shape rules on read_fcomponent / read_chars_until / compile_fcomponent / FString.__new__ (error and table clauses only)",
+        "Thin: decides the accepted conversion characters and their codes, that `=` adds !r exactly when there is neither conversion nor `:`, that {{ }} are literal, single } is an error, \\N{…} is skipped only in non-raw strings, that a format spec is read as nested components, and that FormattedValue receives value, conversion and spec. The evaluated string is Python's and not decided.",
+        "",
+        "4/C24",
+    ),
+    "C25": (
+        "registration-exhaustiveness, attribute-coverage and children-coverage rules over the s-expression tree of hy_repr.hy",
+        "Decides that every model class the reader produces has a printer (or a reviewed fallback), that printers consult every constructor attribute the reader sets (brackets, conversion, is_tstring), that sequence printers print all children (the whole format spec of a field; every component of an f-string), and that bracket f-strings print their text raw. Textual round-trip of concrete models is not decided.",
+        "",
+        "4/C25",
+    ),
+    "C26": (
+        "single-source-of-truth rules: the constructors' validity predicates are the reader's own functions and sets, applied to every non-parser input",
+        "Thin: decides that Symbol() validates through as_identifier for every non-parser input, that Keyword() and as_identifier's reader-less arm use HyReader.NON_IDENT and isnormalizedspace, and that String/FString reject the closing delimiter for every non-None delimiter. Equivalence of predicates over all strings is not decided.",
+        "",
+        "4/C26",
+    ),
+    "C30": (
+        "attribute-coverage rule between render_quoted_form's arms and the model constructors' keyword parameters; promotion rule in as_model",
+        "Decides that for every model class each constructor keyword beyond the content is emitted by the arm handling that class under an `is not None` test, that the rebuilt form calls hy.models.<own class> over all children, and that as_model restores a model's attributes whenever its input is a model. Equality of evaluated results is not decided.",
+        "",
+        "4/C30",
+    ),
+    "C31": (
+        "level-constant and propagation rules in render_quoted_form / compile_quote",
+        "Thin: decides the entry levels (Inf / 0), head recognition through mangling, substitution exactly at level 0, the +1/-1 level steps, that every child is rendered at the current level, and the (unpack-iterable (or X [])) splice. Reference results of concrete templates are not decided.",
+        "",
+        "4/C31",
+    ),
+    "C33": (
+        "regex-AST alphabet containment (re._parser) between what mangle emits and what unmangle's pattern accepts; inverse replacement pairs; call-shape rule for re.sub",
+        "Thin (grammar agreement only): decides that the escape alphabet of mangle is contained in unmangle's character class, that the replacement pairs are inverses, that both use MANGLE_DELIM and hyx_, and that re.sub is called without a count. The round trip on concrete names is not decided.",
+        "",
+        "4/C33",
+    ),
+    "C35": (
+        "lookup-order rule in macroexpand, push/pop ownership and finally-pairing of the local macro state, local-vs-module installation rules, warn-before-install rule, shared assignment_shape",
+        "Decides the order of namespaces consulted (hy.eval macros, local states innermost first, module, core), that the local state stack is popped in a finally and entered by exactly the scope-creating forms, that defmacro/require choose local vs module by is_in_local_state(), that require handles exports, prefixes and the submodule fallback, and that every installation is preceded by a core-shadow warning that tests the mangled name and honours the pragma.",
+        "",
+        "4/C35",
+    ),
+    "C36": (
+        "flag-wiring rules across util.hy and macros.macroexpand; loop-shape rule (rebinding of `tree`)",
+        "Thin: decides that both entry points pass result-ok False, only macroexpand-1 passes once, the loop rebinds `tree`, breaks after one expansion when once, returns the current tree for a compiler Result, and only looks up symbol or non-empty dotted heads. Non-mutation of the input is not decided.",
+        "",
+        "4/C36",
+    ),
+    "C37": (
+        "laziness rules (generators not forced between read_many and _compile_branch), per-instance state rules, save/restore pairing of the current reader, reader priority rule, defreader scope rule",
+        "Decides that the form stream stays lazy so each top-level form is read after the previous one was compiled, that reader macro tables are per reader instance, that the current reader is restored in a finally and an explicit reader beats the ambient one, that the importer uses a fresh reader per module, and that defreader is global-only, defines and enables the macro, with undefined tags as LexException.",
+        "",
+        "4/C37",
+    ),
+    "C41": (
+        "option-table folding, loop-termination rules, action-selection order, sys.argv-before-run rule per mode",
+        "Thin: decides that exactly -c and -m terminate option processing, how option arguments are taken, the order in which the action is selected, and that each mode assigns the documented sys.argv before running. Equality of output across modes is not decided.",
+        "",
+        "4/C41",
+    ),
     "C03": (
         "extraction and cross-comparison of sibling tables: macro patterns / m_ops / c_ops / a_ops (constant-folded from result_macros.py) against the defop lambda lists, bodies and documentation of pyops.hy (own s-expression reader) and Python's fixed ast<->operator correspondence",
         "Decides, exhaustively over the 28 shadowed operator macros and 13 augmented-assignment macros, agreement of arity intervals, operator identity, fold direction and start, nullary/unary special cases, documented aggregators, and that the #* fallback to hy.pyops is taken before pattern matching. Results on concrete operands and exception types are Python's.",
